@@ -21,6 +21,8 @@ enum Probe {
     StackBelowBottom,
     LdAbs(u8, u32),
     LdInd(u8, u32),
+    /// ld_abs after a call to an ABI-legal helper that overwrites every caller-saved register
+    LdAbsAfterHelper(u8, u32),
 }
 
 fn big_load(v: &mut Vec<Insn>, dst: u8, base: u8, off: usize) {
@@ -68,6 +70,19 @@ fn probe_prog(p: Probe, offs: (usize, usize)) -> Vec<u8> {
                 4 => 0x00,
                 _ => 0x18,
             };
+            v.push(Insn::new(0x20 | sz, 0, 0, 0, k as i32));
+        }
+        Probe::LdAbsAfterHelper(w, k) => {
+            let sz = match w {
+                1 => 0x10,
+                2 => 0x08,
+                4 => 0x00,
+                _ => 0x18,
+            };
+            for r in 1..=5u8 {
+                v.push(Insn::new(MOV64_IMM, r, 0, 0, r as i32));
+            }
+            v.push(Insn::new(CALL, 0, 0, 0, 1));
             v.push(Insn::new(0x20 | sz, 0, 0, 0, k as i32));
         }
         Probe::LdInd(w, k) => {
@@ -150,7 +165,9 @@ pub fn run(a: &Args, rep: &mut Report) {
             (_, 8) => Probe::StackAboveTop,
             (_, 9) => Probe::StackBelowBottom,
             (Kind::NoData, _) => Probe::R1,
-            (_, 10) => Probe::LdAbs(*rng.pick(&[1u8, 2, 4, 8]), rng.below(8) as u32),
+            (_, 10) => {
+                if rng.chance(1, 2) { Probe::LdAbs(*rng.pick(&[1u8, 2, 4, 8]), rng.below(8) as u32) } else { Probe::LdAbsAfterHelper(*rng.pick(&[1u8, 2, 4, 8]), rng.below(8) as u32) }
+            }
             _ => Probe::LdInd(*rng.pick(&[1u8, 2, 4, 8]), rng.below(8) as u32),
         };
         // out-of-window probes cannot be observed under the JIT (no bounds checks there)
@@ -174,6 +191,7 @@ pub fn run(a: &Args, rep: &mut Report) {
             } else {
                 Vm::new(c.kind, Some(&prog), c.offs)?
             };
+            vm.register_helper(1, crate::hlp::hostile(0))?;
             match c.engine {
                 Engine::Jit => vm.jit_compile()?,
                 #[cfg(feature = "std")]
@@ -183,7 +201,7 @@ pub fn run(a: &Args, rep: &mut Report) {
             let mut obs = Vec::new();
             for pi in &c.pkts {
                 let mb = if c.kind == Kind::Mbuff { (mbuff.addr() as *mut u8, mbuff.len()) } else { (std::ptr::null_mut(), 0) };
-                if let Probe::LdAbs(wd, k) | Probe::LdInd(wd, k) = c.probe {
+                if let Probe::LdAbs(wd, k) | Probe::LdInd(wd, k) | Probe::LdAbsAfterHelper(wd, k) = c.probe {
                     // compiled engines are only run on in-packet loads (outside: C11 / not claimed)
                     if c.engine != Engine::Interp && (k as usize + wd as usize) > pk(*pi).1 {
                         obs.push((9, 0, 0));
@@ -235,7 +253,7 @@ pub fn run(a: &Args, rep: &mut Report) {
     });
     for (c, e) in cases.iter().zip(ends.iter()) {
         rep.set("load_paths", if c.via_set_program { "new+set_program" } else { "new" });
-        let cell = format!("{}:{}:{:?}", c.kind.name(), c.engine.name(), match c.probe { Probe::LdAbs(w, _) => Probe::LdAbs(w, 0), Probe::LdInd(w, _) => Probe::LdInd(w, 0), p => p });
+        let cell = format!("{}:{}:{:?}", c.kind.name(), c.engine.name(), match c.probe { Probe::LdAbs(w, _) => Probe::LdAbs(w, 0), Probe::LdInd(w, _) => Probe::LdInd(w, 0), Probe::LdAbsAfterHelper(w, _) => Probe::LdAbsAfterHelper(w, 0), p => p });
         rep.set("cells", cell.clone());
         rep.set("offset_pairs", format!("{:?}", c.offs));
         rep.case(Some(crate::util::fnv(format!("{cell}{:?}{:?}{:?}", c.offs, c.pkts, c.probe).as_bytes())));
@@ -289,7 +307,7 @@ pub fn run(a: &Args, rep: &mut Report) {
                         Probe::StackTop => Ok(0x77),
                         Probe::StackBottom => Ok(0x1234567),
                         Probe::StackAboveTop | Probe::StackBelowBottom => Err(()),
-                        Probe::LdAbs(wd, k) | Probe::LdInd(wd, k) => {
+                        Probe::LdAbs(wd, k) | Probe::LdInd(wd, k) | Probe::LdAbsAfterHelper(wd, k) => {
                             if (k as usize) + wd as usize <= pl {
                                 let mut x = 0u64;
                                 for j in 0..wd as usize {
@@ -308,7 +326,7 @@ pub fn run(a: &Args, rep: &mut Report) {
                         (Ok(wv), 0) if wv == v => {}
                         (Ok(wv), 0) => {
                             ok = false;
-                            rep.violation(&sig(&format!("{:?}:value", match c.probe { Probe::LdAbs(w, _) => Probe::LdAbs(w, 0), Probe::LdInd(w, _) => Probe::LdInd(w, 0), p => p })), format!("{cell}: execution #{x} (packet {pa:#x}+{pl}, offsets {:?}) observed {v:#x}, expected {wv:#x}", c.offs), w.clone());
+                            rep.violation(&sig(&format!("{:?}:value", match c.probe { Probe::LdAbs(w, _) => Probe::LdAbs(w, 0), Probe::LdInd(w, _) => Probe::LdInd(w, 0), Probe::LdAbsAfterHelper(w, _) => Probe::LdAbsAfterHelper(w, 0), p => p })), format!("{cell}: execution #{x} (packet {pa:#x}+{pl}, offsets {:?}) observed {v:#x}, expected {wv:#x}", c.offs), w.clone());
                         }
                         (Ok(wv), _) => {
                             ok = false;
